@@ -2,6 +2,7 @@ pub mod e1_checks;
 pub mod e2_checks;
 pub mod c04;
 pub mod simtest;
+pub mod c08;
 pub mod c09;
 pub mod c07;
 pub mod c10;
@@ -22,6 +23,7 @@ pub fn run(id: &str, tier: &Tier, child: bool) -> Result<i32, String> {
         "C06" => e1_checks::c06(tier),
         "C03" => e2_checks::c03(tier),
         "C04" => c04::c04(tier),
+        "C08" => c08::c08(tier),
         "C09" => c09::c09(tier),
         "C07" => c07::c07(tier),
         "C10" => c10::c10(tier),
